@@ -571,8 +571,15 @@ class ExprMixin:
         raise Unsupported(f"`in` on {ty}")
 
     def ev_BinOp(self, node, st, want):
-        a = self.ev(node.left, st)
-        b = self.ev(node.right, st)
+        if isinstance(want, T.Seq) and isinstance(node.op, ast.Add):
+            a = self.ev(node.left, st, want)
+            b = self.ev(node.right, st, want)
+        elif isinstance(want, T.Seq) and isinstance(node.op, ast.Mult):
+            a = self.ev(node.left, st, want)
+            b = self.ev(node.right, st)
+        else:
+            a = self.ev(node.left, st)
+            b = self.ev(node.right, st)
         op = node.op
         if isinstance(a.ty, T.Set) and isinstance(b.ty, T.Set):
             if isinstance(op, ast.BitOr):
@@ -583,7 +590,7 @@ class ExprMixin:
                 return SV(z3.SetDifference(a.t, b.t), a.ty)
             raise Unsupported("set op")
         if isinstance(a.ty, T.Seq) and isinstance(b.ty, T.Seq) and isinstance(op, ast.Add):
-            return self.seq_concat(a, b)
+            return self.seq_concat(a, b, st)
         if isinstance(a.ty, T.Seq) and isinstance(op, ast.Mult):
             # [v] * n
             n = self.to_int(b, st, node)
@@ -629,11 +636,61 @@ class ExprMixin:
         self.used_models.add("% with symbolic divisor: uninterpreted, facts only through lemmas")
         return _UFMOD(x, y)
 
-    def float_binop(self, op, a, b, st, node):
-        raise Unsupported("float arithmetic (enable vf.floats)")
+    EPS = z3.RealVal("1/9007199254740992")  # 2**-53: unit round-off of IEEE double, round-to-nearest
+    BIG = z3.RealVal(2 ** 53)
 
-    def seq_concat(self, a, b):
+    def float_round(self, st, exact, hint="fl"):
+        """IEEE-754 double rounding, abstracted: |r - x| <= 2**-53 * |x|, exact when x is an integer of
+        magnitude <= 2**53 (those are representable), sign preserved.  Overflow/underflow/NaN excluded
+        (listed as an assumption).  NOT `floats are reals`."""
+        self.used_models.add("float: relative rounding error 2**-53 per operation, integers up to 2**53 exact")
+        qs = [v for vs, _ in self.qscope for v in vs]
+        if qs:
+            # inside a comprehension: the rounded value is a (Skolem) function of the bound variables
+            f = z3.Function(fresh_name(hint), *[v.sort() for v in qs], z3.RealSort())
+            r = f(*qs)
+        else:
+            r = z3.Real(fresh_name(hint))
+        ax = z3.If(exact >= 0, exact, -exact)
+        facts = z3.And(
+            r >= exact - self.EPS * ax, r <= exact + self.EPS * ax,
+            z3.Implies(z3.And(z3.IsInt(exact), ax <= self.BIG), r == exact),
+            z3.Implies(exact >= 0, r >= 0), z3.Implies(exact <= 0, r <= 0),
+        )
+        if qs:
+            guard = z3.And(*[g for _, g in self.qscope])
+            st.assume(z3.ForAll(qs, z3.Implies(guard, facts), patterns=[r]))
+        else:
+            st.assume(facts)
+        return r
+
+    def float_binop(self, op, a, b, st, node):
+        x = self.coerce(a, T.Real, st, node).t
+        y = self.coerce(b, T.Real, st, node).t
+        if isinstance(op, ast.Div):
+            self.check(st, y != 0, "ZeroDivisionError", node)
+            exact = x / y
+        elif isinstance(op, ast.Mult):
+            exact = x * y
+        elif isinstance(op, ast.Add):
+            exact = x + y
+        elif isinstance(op, ast.Sub):
+            exact = x - y
+        else:
+            raise Unsupported(f"float operator {type(op).__name__}")
+        return SV(self.float_round(st, exact), T.Real)
+
+    def seq_concat(self, a, b, st=None):
         ty = a.ty
+        if st is not None and not self.spec_mode:
+            la, lb = ty.len(a.t), ty.len(b.t)
+            r = fresh(ty, "cat")
+            ra = ty.arr(r.t)
+            j = z3.Int(fresh_name("j"))
+            st.assume(ty.len(r.t) == la + lb)
+            st.assume(z3.ForAll([j], z3.Implies(z3.And(0 <= j, j < la), z3.Select(ra, j) == z3.Select(ty.arr(a.t), j)), patterns=[z3.Select(ra, j)]))
+            st.assume(z3.ForAll([j], z3.Implies(z3.And(la <= j, j < la + lb), z3.Select(ra, j) == z3.Select(ty.arr(b.t), j - la)), patterns=[z3.Select(ra, j)]))
+            return r
         i = z3.Int("i!cc")
         la, lb = ty.len(a.t), ty.len(b.t)
         arr = z3.Lambda([i], z3.If(i < la, z3.Select(ty.arr(a.t), i), z3.Select(ty.arr(b.t), i - la)))
@@ -809,7 +866,11 @@ class ExprMixin:
             raise Unsupported("list comprehension over a set (order)")
         with self.binding(binds):
             with self.guarded(guard):
-                body = self.ev(node.elt, st, want.elem if isinstance(want, T.Seq) else None)
+                self.qscope.append((vs, guard))
+                try:
+                    body = self.ev(node.elt, st, want.elem if isinstance(want, T.Seq) else None)
+                finally:
+                    self.qscope.pop()
         sty = T.Seq(body.ty)
         v = vs[0]
         if dom[0] == "range":
